@@ -100,6 +100,30 @@ def norm_tag(t):
     return ''.join(out)
 
 
+def decode_fmt_template(b):
+    """format_args! template bytes -> 'lit{}lit' ; None if the encoding is not understood"""
+    out, i = '', 0
+    while i < len(b):
+        x = b[i]
+        if x == 0:
+            return out if i == len(b) - 1 else None
+        if x == 0xC0:
+            out += '{}'
+            i += 1
+        elif x < 0x80:
+            lit = b[i + 1:i + 1 + x]
+            if len(lit) != x:
+                return None
+            try:
+                out += lit.decode('utf-8')
+            except UnicodeDecodeError:
+                return None
+            i += 1 + x
+        else:
+            return None
+    return None
+
+
 def tag_of(v):
     v = strip(v)
     return v.tag if isinstance(v, U) else None
@@ -324,7 +348,7 @@ Outcome.__new__.__defaults__ = ((),)
 
 class Explorer:
     def __init__(self, facts, inline_depth=3, budget=200000, no_inline=(), force_domain=None,
-                 observe=(), models=None, loop_visits=2, inline_only=None, watch=(), model_hook=None, time_budget=60.0, trace=False, tag_named=False, const_params=None):
+                 observe=(), models=None, loop_visits=2, inline_only=None, watch=(), model_hook=None, time_budget=60.0, trace=False, tag_named=False, const_params=None, force_type=None, observe_types=(), inline_pred=None):
         self.facts = facts
         self.inline_depth = inline_depth
         self.budget = budget
@@ -340,6 +364,9 @@ class Explorer:
         self.trace = trace
         self.tag_named = tag_named
         self.const_params = const_params or {}
+        self.force_type = force_type or {}
+        self.observe_types = tuple(observe_types)
+        self.inline_pred = inline_pred
         import time as _t
         self.deadline = _t.time() + time_budget
         self.memo = {}
@@ -375,6 +402,11 @@ class Explorer:
             return I(self.const_params[k['param']])
         if k.get('zst') and k['ty'] == '()':
             return T(())
+        if k.get('ty', '').startswith('&[u8; '):
+            if 'bytes' in k:
+                t = decode_fmt_template(bytes.fromhex(k['bytes']))
+                return U((), ('fmt:' + t) if t is not None else ('bytes:' + k['bytes']))
+            return U((), 'const:' + k['ty'])
         return TOP
 
     def operand(self, env, op, depth):
@@ -521,6 +553,18 @@ class Explorer:
         if name in ('alloc::str::<impl str>::to_uppercase', 'alloc::str::<impl str>::to_ascii_uppercase'):
             v = strip(args[0])
             return S(v.s.upper()) if isinstance(v, S) else TOP
+        if name in ('core::str::<impl str>::contains', 'core::str::<impl str>::starts_with', 'core::str::<impl str>::ends_with'):
+            a, b = strip(args[0]), strip(args[1])
+            if isinstance(a, S) and isinstance(b, S):
+                if name.endswith('contains'):
+                    return I(int(b.s in a.s))
+                if name.endswith('starts_with'):
+                    return I(int(a.s.startswith(b.s)))
+                return I(int(a.s.endswith(b.s)))
+            return None
+        if name == 'core::str::<impl str>::is_empty':
+            a = strip(args[0])
+            return I(int(a.s == '')) if isinstance(a, S) else None
         if name == 'core::str::<impl str>::eq_ignore_ascii_case':
             a, b = strip(args[0]), strip(args[1])
             if isinstance(a, S) and isinstance(b, S):
@@ -638,6 +682,13 @@ class Explorer:
                     events = events | {('mkclosure', rv[1][1], val)}
                 if not projs:
                     nm = names.get(loc)
+                    if self.force_type and not ground(val) and locs[loc][0] in self.force_type and nm:
+                        for dv in self.force_type[locs[loc][0]]:
+                            e2 = dict(env)
+                            e2[loc] = dv
+                            stack.append((bb, idx + 1, e2, events, dsrc, visits))
+                        forked = True
+                        break
                     if nm in self.force_domain and not ground(val):
                         for dv in self.force_domain[nm]:
                             e2 = dict(env)
@@ -763,6 +814,9 @@ class Explorer:
             stack.append((t[1], 0, env, events, dsrc, visits))
         elif k == 'ret':
             obs = tuple((n, env.get(i, TOP)) for i, n in sorted(names.items()) if n in self.observe)
+            if self.observe_types:
+                obs = obs + tuple(('%s#%d' % (rec['locals'][i][0], i), env.get(i, TOP)) for i in range(len(rec['locals']))
+                                  if rec['locals'][i][0] in self.observe_types and i in env)
             results[Outcome(env.get(0, T(())), events, obs, tuple(env.get(i + 1, TOP) for i in range(rec['argc'])))] = 1
         elif k == 'switch':
             v = strip(self.operand(env, t[1], depth))
@@ -911,6 +965,14 @@ class Explorer:
                     if isinstance(v, MR) and (v.frame, v.loc, v.projs) == (m.frame, m.loc, m.projs):
                         e2[l] = nm
             dnm = rec['locals'][dloc][1] if not dprojs else None
+            if dnm and self.force_type and not ground(val) and rec['locals'][dloc][0] in self.force_type:
+                for dv in self.force_type[rec['locals'][dloc][0]]:
+                    e3 = dict(e2)
+                    e3[dloc] = dv
+                    d3 = dict(dsrc)
+                    d3.pop(dloc, None)
+                    stack.append((target, 0, e3, ev, d3, visits))
+                return
             if dnm and dnm in self.force_domain and not ground(val):
                 for dv in self.force_domain[dnm]:
                     e3 = dict(e2)
@@ -1014,6 +1076,10 @@ class Explorer:
         inl = crec is not None and depth < self.inline_depth and not any(name.startswith(p) or name == p for p in self.no_inline)
         if inl and self.inline_only is not None:
             inl = any(name.startswith(p) or name.startswith('<' + p) for p in self.inline_only)
+            if not inl and self.inline_pred is not None:
+                inl = bool(self.inline_pred(name))
+        elif crec is not None and self.inline_pred is not None and depth < self.inline_depth + 2 and not inl:
+            inl = bool(self.inline_pred(name)) and not crec.get('coroutine')
         if inl and crec.get('coroutine'):
             inl = False
         if inl:
